@@ -37,10 +37,18 @@ func checkC17(e *Env) {
 	e.requireGates("GATE", v, o, noCfg, gate.Cmp("V.nonempty", "len(param:certChain)", token.NEQ, "const:0"))
 	first := gcfg{name: "i==0", assume: []gate.Assumption{{ProvPat: "rangeidx", Value: "0"}}}
 	rest := gcfg{name: "i!=0", assume: []gate.Assumption{{ProvPat: "rangeidx", Value: "0", NotEqual: true}}}
-	forAllIterations(e, "FORALL", v, "param:certChain", first,
-		gate.Cmp("V.first-has-ocsp", "param:certChain[rangeidx].OCSPResponse", token.NEQ, "const:nil"))
-	forAllIterations(e, "FORALL", v, "param:certChain", rest,
-		gate.Cmp("V.rest-no-ocsp", "param:certChain[rangeidx].OCSPResponse", token.EQL, "const:nil"))
+	// element 0 has an OCSP response: tested inside the loop at i == 0, or on certChain[0] directly
+	firstOf(e,
+		func(e *Env) {
+			forAllIterations(e, "FORALL", v, "param:certChain", first,
+				gate.Cmp("V.first-has-ocsp", "param:certChain[rangeidx].OCSPResponse", token.NEQ, "const:nil"))
+		},
+		func(e *Env) {
+			e.requireGates("FORALL", v, o, noCfg, gate.Cmp("V.first-has-ocsp", "param:certChain[const:0].OCSPResponse", token.NEQ, "const:nil"))
+		})
+	// every later element has none (the loop may start at 0 or at 1)
+	forAllIterationsFrom(e, "FORALL", v, "param:certChain", rest,
+		gate.Cmp("V.rest-no-ocsp", "param:certChain[rangeidx].OCSPResponse", token.EQL, "const:nil"), 1)
 
 	r := e.fn("signedexchange/certurl.ReadCertChain")
 	ro := gate.Outcome{Kind: gate.ErrNil, Idx: 1}
@@ -73,11 +81,11 @@ func checkC17(e *Env) {
 
 	enc := e.fn("signedexchange/certurl.(*AugmentedCertificate).EncodeTo")
 	e.requireGates("COVER", enc, o, noCfg,
-		closureEntry("E.cert", "(*cbor.Encoder).EncodeByteString", "param:valueE", "free:ac.Cert.Raw"),
+		closureEntry("E.cert", "(*cbor.Encoder).EncodeByteString", "param:valueE", "{free:|param:}ac.Cert.Raw"),
 		either("E.ocsp", "ocsp entry reaches EncodeMap (or OCSPResponse is nil)",
-			closureEntry("", "(*cbor.Encoder).EncodeByteString", "param:valueE", "free:ac.OCSPResponse"), gate.Cmp("", "param:ac.OCSPResponse", token.EQL, "const:nil")),
+			closureEntry("", "(*cbor.Encoder).EncodeByteString", "param:valueE", "{free:|param:}ac.OCSPResponse"), gate.Cmp("", "param:ac.OCSPResponse", token.EQL, "const:nil")),
 		either("E.sct", "sct entry reaches EncodeMap (or SCTList is nil)",
-			closureEntry("", "(*cbor.Encoder).EncodeByteString", "param:valueE", "free:ac.SCTList"), gate.Cmp("", "param:ac.SCTList", token.EQL, "const:nil")),
+			closureEntry("", "(*cbor.Encoder).EncodeByteString", "param:valueE", "{free:|param:}ac.SCTList"), gate.Cmp("", "param:ac.SCTList", token.EQL, "const:nil")),
 		gate.CallOK("E.map", "(*cbor.Encoder).EncodeMap", "param:enc", ""),
 	)
 	if enc != nil && d != nil {
@@ -91,19 +99,35 @@ func checkC17(e *Env) {
 	s := e.fn("signedexchange/certurl.SerializeSCTList")
 	so := gate.Outcome{Kind: gate.ErrNil, Idx: 1}
 	tTotal := "phi((↺ + (len(param:scts[rangeidx]) + const:2))|const:0)"
-	e.requireGates("GATE", s, so, noCfg,
-		gate.Cmp("S.total", tTotal, token.LEQ, "const:65535"),
-		gate.CallOK("S.total.write", "binary.Write", "local:buf", "global:binary.BigEndian", "conv("+tTotal+")"),
-	)
+	e.requireGates("GATE", s, so, noCfg, gate.Cmp("S.total", tTotal, token.LEQ, "const:65535"))
 	loops := loopsOver(s, "param:scts")
 	if len(loops) != 2 {
 		e.R.Undecided("FORALL", load.FuncName(s)+":loops", e.P.Pos(s.Pos()), "expected the size loop and the emission loop over scts")
 	} else {
 		forAllIterationsAt(e, "FORALL", s, loops[0], "size-loop", noCfg, gate.Cmp("S.each", "len(param:scts[rangeidx])", token.LEQ, "const:65535"))
-		forAllIterationsAt(e, "FORALL", s, loops[1], "emit-loop", noCfg, gate.CallOK("S.each.len", "binary.Write", "local:buf", "global:binary.BigEndian", "conv(len(param:scts[rangeidx]))"))
-		forAllIterationsAt(e, "FORALL", s, loops[1], "emit-loop", noCfg, gate.CallOK("S.each.body", "(*bytes.Buffer).Write", "local:buf", "param:scts[rangeidx]"))
 	}
-	e.requireResult("RESULT", s, so, 0, "call:(*bytes.Buffer).Bytes(local:buf)", "the serialized list")
+	// the list is built in a bytes.Buffer, or by appending to a byte slice
+	firstOf(e,
+		func(e *Env) {
+			e.requireGates("GATE", s, so, noCfg,
+				gate.CallOK("S.total.write", "binary.Write", "local:buf", "global:binary.BigEndian", "conv("+tTotal+")"))
+			if len(loops) == 2 {
+				forAllIterationsAt(e, "FORALL", s, loops[1], "emit-loop", noCfg, gate.CallOK("S.each.len", "binary.Write", "local:buf", "global:binary.BigEndian", "conv(len(param:scts[rangeidx]))"))
+				forAllIterationsAt(e, "FORALL", s, loops[1], "emit-loop", noCfg, gate.CallOK("S.each.body", "(*bytes.Buffer).Write", "local:buf", "param:scts[rangeidx]"))
+			}
+			e.requireResult("RESULT", s, so, 0, "call:(*bytes.Buffer).Bytes(local:buf)", "the serialized list")
+		},
+		func(e *Env) {
+			tHead := "call:(binary.bigEndian).AppendUint16(global:binary.BigEndian,make([]byte,const:0*),conv(" + tTotal + "))"
+			e.requireResult("RESULT", s, so, 0,
+				"phi(append(call:(binary.bigEndian).AppendUint16(global:binary.BigEndian,↺,conv(len(param:scts[rangeidx]))),param:scts[rangeidx])|"+tHead+")",
+				"the 2-byte total followed, for every element in order, by its 2-byte length and its bytes (append chain)")
+			if len(loops) == 2 {
+				forAllIterationsAt(e, "FORALL", s, loops[1], "emit-loop", noCfg, gate.CallInstr("S.each.body", "builtin:append", "*", "param:scts[rangeidx]"))
+				forAllIterationsAt(e, "FORALL", s, loops[1], "emit-loop", noCfg, gate.CallInstr("S.each.len", "(binary.bigEndian).AppendUint16", "*", "*", "conv(len(param:scts[rangeidx]))"))
+			}
+			e.requireGates("GATE", s, so, noCfg, gate.CallInstr("S.total.write", "(binary.bigEndian).AppendUint16", "*", "make([]byte,const:0*)", "conv("+tTotal+")"))
+		})
 	var sizeLoop *ssa.BasicBlock
 	if len(loops) == 2 {
 		sizeLoop = loops[0][0]
